@@ -116,6 +116,7 @@ def run(ctx):
 
     from vf.sim import fsfakes as F
 
+    _selftest_range_parser(F)
     tmp_parent = '/dev/shm' if os.path.isdir('/dev/shm') and os.access('/dev/shm', os.W_OK) else None
     scratch = tempfile.mkdtemp(prefix='verif-c23-', dir=tmp_parent)
     pool = ThreadPoolExecutor(max_workers=4)
@@ -124,6 +125,24 @@ def run(ctx):
     finally:
         pool.shutdown(wait=True)
         shutil.rmtree(scratch, ignore_errors=True)
+
+
+def _selftest_range_parser(F):
+    """the fakes' Range parser against the worked examples of RFC 9110 section 14.1.2 (10000-byte representation)"""
+    from vf.harness import Inconclusive
+
+    table = [
+        ('bytes=0-499', 10000, ('ok', 0, 499)), ('bytes=500-999', 10000, ('ok', 500, 999)), ('bytes=-500', 10000, ('ok', 9500, 9999)),
+        ('bytes=9500-', 10000, ('ok', 9500, 9999)), ('bytes=0-0', 10000, ('ok', 0, 0)), ('bytes=9999-20000', 10000, ('ok', 9999, 9999)),
+        ('bytes=10000-', 10000, ('unsatisfiable',)), ('bytes=10000-10001', 10000, ('unsatisfiable',)), ('bytes=0-', 0, ('unsatisfiable',)),
+        ('bytes=-0', 10000, ('unsatisfiable',)), ('bytes=5-2', 10000, ('invalid',)), ('bytes=a-b', 10000, ('invalid',)),
+        ('bytes=--1', 10000, ('invalid',)), ('bytes=1--2', 10000, ('invalid',)), ('octets=0-1', 10000, ('invalid',)), ('bytes 0-1', 10000, ('invalid',)),
+        ('BYTES=1-2', 10000, ('ok', 1, 2)), (None, 10000, ('none',)), ('bytes=0-0,-1', 10000, ('multi', [(0, 0), (9999, 9999)])),
+    ]
+    for header, size, want in table:
+        got = F.parse_range(header, size)
+        if tuple(got) != tuple(want):
+            raise Inconclusive(f'fake Range parser disagrees with RFC 9110 on {header!r} / {size}: {got} != {want}')
 
 
 class _World:
@@ -436,3 +455,41 @@ async def _main(ctx, scratch, pool, F, LocalAsyncFS, RouterAsyncFS, UnexpectedEO
                     judge(world, backend, routed, data, start, length, op, got)
     if world is not None:
         world.harvest()
+
+
+# --------------------------------------------------------------------------------------------------
+# Validation record (scratch worktree /tmp/scratch-fs at HEAD 78296c9bd, quick tier, seed 0; removed afterwards)
+#
+# Unchanged tree: fires in both tiers for every seed 0..4 with exactly two mechanism keys, both genuine defects of
+# AzureReadableStream.read (hail/python/hailtop/aiocloud/aioazure/fs.py); local, gcs and s3 are silent.
+#   azure/length-ignored-by-sized-read
+#       read(n >= 0) opens its download with download_blob(offset=self._offset) and drops self._length, so a stream from
+#       open_from(url, start, length=L) hands out bytes past start+L through read(n), and readexactly(m > L) succeeds instead
+#       of raising UnexpectedEOFError.  Witness: blob b'AB', open_from(url, 0, length=1), read(1) until b'' -> b'AB'.
+#       Proposed fix: /verif/proposed_fixes/C23-azure-length-ignored-by-sized-read.diff
+#   azure/range-not-satisfiable-unmapped-in-read-all
+#       read() (n == -1) catches only ResourceNotFoundError; the service's 416 InvalidRange for an offset at/after the end
+#       (also offset 0 of an empty blob, also read(k) to the exact end followed by read()) escapes as a raw
+#       azure.core.exceptions.HttpResponseError, while the sized branch of the same method maps it to UnexpectedEOFError and
+#       local returns b''.  Witness: empty blob, read_from(url, 0) -> HttpResponseError(416).
+#       Proposed fix: /verif/proposed_fixes/C23-azure-range-not-satisfiable-unmapped-in-read-all.diff
+# With both diffs applied in the scratch worktree the check is HELD (exit 0); that tree was the baseline for the breaks:
+#
+#  1. aioaws/fs.py           range end start+length instead of start+length-1 (DESIGN)        -> exit 1  s3/*/range-end-off-by-one-long, s3/readexactly/eof-not-signalled
+#  2. storage_client.py      same in GoogleStorageAsyncFS._open_from (DESIGN)                  -> exit 1  gcs/*/range-end-off-by-one-long, gcs/readexactly/eof-not-signalled
+#  3. local_fs.py            TruncatedReadableBinaryIO.read stops advancing self.offset (own, subtle: only chunked reads over-read)
+#                                                                                             -> exit 1  local/read_n/over-read, local/mixed/over-read, local/readexactly/eof-not-signalled
+#  4. fs.py                  read_range: n = end - start + 1 regardless of end_inclusive (own) -> exit 1  */read_range/range-end-off-by-one-long, */read_range/spurious-eof (all 4 backends)
+#  5. fs.py                  open_from(length=0) on a missing object returns an empty stream   -> exit 1  */length0/FileNotFoundError-expected (all 4 backends)
+#  6. storage_client.py      GetObjectStream.readexactly returns e.partial at EOF (own)        -> exit 1  gcs/readexactly/eof-not-signalled, gcs/read_range/eof-not-signalled
+#  7. local_fs.py            TruncatedReadableBinaryIO(bio, start + length) (own, subtle: wrong only when start > 0)
+#                                                                                             -> exit 1  local/*/over-read, local/*/range-end-off-by-one-long
+#  8. aioaws/fs.py           range end omitted when length == 1 (own, subtle: only one-byte ranges)
+#                                                                                             -> exit 1  s3/*/over-read, s3/*/range-end-off-by-one-long
+#  9. aioazure/fs.py         offset=start or None (own, subtle: only start == 0)               -> exit 1  azure/*/raises-ValueError
+# 10. aioaws/fs.py           InvalidRange no longer mapped to UnexpectedEOFError               -> exit 1  s3/*/raises-ClientError
+# All caught in the quick tier.
+#
+# Recorded, tolerated behaviour (see module docstring): for start >= size gcs and s3 raise UnexpectedEOFError where local
+# returns b'' (evidence: observed_sets['start_ge_size_signalled_as_eof']).
+# --------------------------------------------------------------------------------------------------
